@@ -41,7 +41,7 @@ func deduceMsgType(msg interface{}, typ reflect.Type) MessageType {
 	if _, ok := msg.(google.Message); ok {
 		return MessageTypeGoogle
 	}
-	if typ.Kind() != reflect.Ptr {
+	if typ == nil || typ.Kind() != reflect.Ptr {
 		return MessageTypeUnknown
 	}
 	// does the message satisfy Gogo's csproto.Message interface
